@@ -476,6 +476,124 @@ def oracle(ctx):
     ctx.sample({'kind': 'oracle', 'law': 'duality', 'v': v.tolist(), 'f': f.tolist(), 'm': m.tolist()})
 
 
+# ----------------------------------------------------------------------------------------------- container / dtype forms
+# A spatial vector holding 1,2,3,4,5,6 is the same vector whether it was built from a float ndarray, a list of
+# Python ints, an integer ndarray, a tuple or a mixed list: every operand position of every operation is run with
+# integer-typed containers (values are integers) against a fractional float partner at small and large magnitudes,
+# and compared with the float reference (catches results written into integer storage, dtype-dependent paths).
+FORMS = [
+    ('float-ndarray', lambda a: np.array(a, dtype=float)),
+    ('float-list', lambda a: [float(x) for x in a]),
+    ('int-list', lambda a: [int(x) for x in a]),
+    ('int-tuple', lambda a: tuple(int(x) for x in a)),
+    ('int64-ndarray', lambda a: np.array(a, dtype=np.int64)),
+    ('int32-ndarray', lambda a: np.array(a, dtype=np.int32)),
+    ('mixed-list', lambda a: [int(x) if i % 2 else float(x) for i, x in enumerate(a)]),
+]
+
+
+def int6(rng, n=6):
+    while True:
+        k = int(rng.integers(1, 5))
+        a = rng.integers(-10 ** k, 10 ** k + 1, size=n)
+        if np.any(a != 0):
+            return a.astype(float)
+
+
+def frac6(rng, n=6):
+    """fractional floats; half of the time all entries are below 1 in magnitude (an integer cast gives 0)"""
+    s = log_uniform(rng, 1e-6, 0.5) if rng.random() < 0.5 else log_uniform(rng, 1e-6, 1e6)
+    return rng.uniform(-1, 1, size=n) * s + s * 1e-3
+
+
+def forms(ctx):
+    rng = ctx.rng
+    keys = list(CLS)
+
+    def chk(op, pos, form, thunk, ref, scale, inputs, want_cls=None):
+        key = f'forms:{op}:{pos}:{form}'
+        ctx.case((key, tuple(np.asarray(inputs, float).flatten()[:12])))
+        ctx.count('forms:' + op)
+        try:
+            res = thunk()
+            got = np.asarray(res.A if hasattr(res, 'A') else res, dtype=float)
+        except Exception as ex:  # noqa
+            ctx.fail(key + ':raises-' + type(ex).__name__, f"{op} with the {pos} operand given as {form} raises {type(ex).__name__}: {ex}",
+                     {'op': op, 'operand': pos, 'form': form, 'inputs_hex': hexl(inputs), 'inputs': np.asarray(inputs, float).tolist()})
+            return
+        ref = np.asarray(ref, float)
+        if want_cls is not None and type(res) is not want_cls:
+            ctx.fail(key + ':wrong-class', f"{op} with the {pos} operand given as {form}: result class {type(res).__name__}",
+                     {'op': op, 'operand': pos, 'form': form, 'inputs': np.asarray(inputs, float).tolist()})
+        bad = got.shape != ref.shape or not np.all(np.abs(got - ref) <= 1e-9 * np.maximum(scale, 1e-300))
+        if bad:
+            ctx.fail(key, f"{op} with the {pos} operand given as {form} differs from the float reference: got {got.tolist()}, reference {ref.tolist()}",
+                     {'op': op, 'operand': pos, 'form': form, 'inputs_hex': hexl(inputs), 'inputs': np.asarray(inputs, float).tolist(),
+                      'got': got.tolist(), 'ref': ref.tolist()})
+
+    T = SE3(0.3, -0.2, 0.5) * SE3.Rx(0.4) * SE3.Rz(-1.1)
+    X = ad_np(np.asarray(T.A, float))
+    for it in range(ctx.n(12, 400)):
+        ai, bi = int6(rng), int6(rng)
+        af, bf = frac6(rng), frac6(rng)
+        mass, c, I3 = log_uniform(rng, 1e-3, 1e3), rng.normal(size=3), spd3(rng, 1e-3, 1e3)
+        J = SpatialInertia(mass, c, I3)
+        JA = inertia_np(mass, c, I3)
+        for fname, F in FORMS:
+            k = keys[it % 4]
+            C = CLS[k]
+            # + - neg: the formed operand on the left and on the right, the partner fractional; and both formed
+            for pos, (l, r, lv, rv) in (('left', (F(ai), bf, ai, bf)), ('right', (af, F(bi), af, bi)), ('both', (F(ai), F(bi), ai, bi))):
+                sc = np.abs(lv) + np.abs(rv)
+                chk('add', pos, fname, lambda: C(l) + C(r), lv + rv, sc, np.r_[lv, rv], C)
+                chk('sub', pos, fname, lambda: C(l) - C(r), lv - rv, sc, np.r_[lv, rv], C)
+            chk('neg', 'operand', fname, lambda: -C(F(ai)), -ai, np.abs(ai), ai, C)
+            # cross products, @ : both operand positions
+            for pos, (l, r, lv, rv) in (('left', (F(ai), bf, ai, bf)), ('right', (af, F(bi), af, bi)), ('both', (F(ai), F(bi), ai, bi))):
+                M = crm_np(lv)
+                sc = np.abs(M) @ np.abs(rv)
+                L = SpatialVelocity(l) if it % 2 else SpatialAcceleration(l)
+                chk('crm', pos, fname, lambda: L.cross(SpatialVelocity(r)), M @ rv, sc, np.r_[lv, rv], SpatialAcceleration)
+                chk('crm-operator', pos, fname, lambda: SpatialVelocity(l) @ SpatialVelocity(r), M @ rv, sc, np.r_[lv, rv], SpatialAcceleration)
+                sct = np.abs(M.T) @ np.abs(rv)
+                chk('crf', pos, fname, lambda: L.cross(SpatialForce(r)), -M.T @ rv, sct, np.r_[lv, rv], SpatialForce)
+                chk('crf-momentum', pos, fname, lambda: L.cross(SpatialMomentum(r)), -M.T @ rv, sct, np.r_[lv, rv], SpatialForce)
+            # SE3 * vector, inertia * vector
+            Mx = X if k in MOTION else X.T
+            chk('se3mul', 'right', fname, lambda: T * C(F(bi)), Mx @ bi, np.abs(Mx) @ np.abs(bi), bi, C)
+            chk('imul-acc', 'right', fname, lambda: J * SpatialAcceleration(F(bi)), JA @ bi, np.abs(JA) @ np.abs(bi), bi, SpatialForce)
+            chk('imul-vel', 'right', fname, lambda: J * SpatialVelocity(F(bi)), JA @ bi, np.abs(JA) @ np.abs(bi), bi, SpatialMomentum)
+            chk('fdot', 'both', fname, lambda: SpatialForce(F(ai)).dot(F(bi)), float(ai @ bi), float(np.abs(ai) @ np.abs(bi)), np.r_[ai, bi])
+            # 3-vector constructor form (padded with zeros) and multi-valued integer columns
+            chk('crm', 'right-3vector', fname, lambda: SpatialVelocity(af).cross(SpatialVelocity(F(bi[:3]))), crm_np(af) @ np.r_[bi[:3], 0, 0, 0],
+                np.abs(crm_np(af)) @ np.abs(np.r_[bi[:3], 0, 0, 0]), np.r_[af, bi[:3]], SpatialAcceleration)
+        # inertia built from integer mass / offset / inertia, applied to a fractional vector; integer inertia times integer vector
+        mi, ci, Ii = int(rng.integers(1, 50)), rng.integers(-5, 6, size=3), np.diag(rng.integers(1, 20, size=3))
+        Jr = inertia_np(float(mi), ci.astype(float), Ii.astype(float))
+        for fname, mk_ in (('python-int', lambda: SpatialInertia(mi, [int(x) for x in ci], Ii)),
+                           ('int-ndarray', lambda: SpatialInertia(mi, ci, Ii)),
+                           ('int-tuple-int32', lambda: SpatialInertia(np.int64(mi), tuple(int(x) for x in ci), Ii.astype(np.int32)))):
+            chk('inertia-ctor', 'args', fname, lambda: mk_(), Jr, np.abs(Jr) + 1.0, np.r_[mi, ci, Ii.flatten()], SpatialInertia)
+            chk('imul-acc', 'left-inertia', fname, lambda: mk_() * SpatialAcceleration(af), Jr @ af, np.abs(Jr) @ np.abs(af), np.r_[mi, ci, af], SpatialForce)
+            chk('imul-vel', 'both', fname, lambda: mk_() * SpatialVelocity([int(x) for x in bi]), Jr @ bi, np.abs(Jr) @ np.abs(bi), np.r_[mi, ci, bi], SpatialMomentum)
+        # multi-valued integer columns for + - neg
+        n = int(rng.integers(2, 5))
+        Ai, Bf = np.column_stack([int6(rng) for _ in range(n)]), np.column_stack([frac6(rng) for _ in range(n)])
+        k = keys[it % 4]
+        C = CLS[k]
+        for fname, F in (('int64-ndarray', lambda a: np.array(a, dtype=np.int64)), ('int32-ndarray', lambda a: np.array(a, dtype=np.int32))):
+            for op, f, npf in (('add', lambda a, b: a + b, np.add), ('sub', lambda a, b: a - b, np.subtract)):
+                for pos, (l, r, lv, rv) in (('left-multi', (F(Ai), Bf, Ai, Bf)), ('right-multi', (Bf, F(Ai), Bf, Ai))):
+                    ctx.count('forms:' + op)
+                    ctx.case(('forms', op, pos, fname, tuple(lv.flatten()[:6])))
+                    obs = observe(lambda: f(C(l), C(r)))
+                    ok = obs[0] == 'Value' and obs[1] == k and obs[2] == n and close(columns(obs[3]), npf(lv, rv), 1e-12)[0]
+                    if not ok:
+                        ctx.fail(f'forms:{op}:{pos}:{fname}', f"{op} of multi-valued operands, one given as {fname} columns, differs from the float reference",
+                                 {'op': op, 'operand': pos, 'form': fname, 'left': lv.tolist(), 'right': rv.tolist(), 'observed': str(obs[:3])})
+
+
+
 def run(ctx):
     ctx.rule = ("obligations: theorems of theories/Props/C20.v, C20_inertia.v, C20_se3.v (values, over the traces regenerated from /repo "
                 "and the hand model of the inertia constructor) and theories/Props/C20_tab.v (class/length tables); evaluations: Sym==Num / "
@@ -497,5 +615,7 @@ def run(ctx):
         sym_num(ctx, g, MOD, ctx.n(25, 400))
     with ctx.timed('tables'):
         tables(ctx)
+    with ctx.timed('forms'):
+        forms(ctx)
     with ctx.timed('oracle'):
         oracle(ctx)
